@@ -185,6 +185,10 @@ func (s *Service) Message(ctx context.Context, duty *synccommitteemessenger.Duty
 		return nil, errors.Wrap(err, "failed to obtain beacon block root")
 	}
 	beaconBlockRoot := beaconBlockRootResponse.Data
+	if beaconBlockRoot == nil {
+		monitorSyncCommitteeMessagesCompleted(started, duty.Slot(), len(duty.ValidatorIndices()), "failed", startOfSlot)
+		return nil, errors.New("obtained empty beacon block root")
+	}
 	s.log.Trace().Dur("elapsed", time.Since(started)).Msg("Obtained beacon block root")
 	s.syncCommitteeAggregator.SetBeaconBlockRoot(duty.Slot(), *beaconBlockRoot)
 
